@@ -49,8 +49,8 @@ fn gens(tier: Tier) -> Vec<Gen> {
         Gen { name: "matrix", count: matrix(), exhaustive: true, run: run_matrix },
         Gen { name: "redirected", count: (REDIR_URLS.len() * REDIR_URLS.len() * 3 * 2) as u64, exhaustive: true, run: run_redirected },
         Gen { name: "proxy-unreachable", count: (3 * 2 * 2) as u64, exhaustive: true, run: run_proxy_unreachable },
-        // (every tunnel row is a real TLS handshake: 400 rows in quick, 24 000 in thorough, as a stride coprime-stepped through all of them)
-        Gen { name: "tunnel-rows", count: tier.pick(400, 24_000), exhaustive: false, run: run_tunnel_rows },
+        // (every tunnel row is a real TLS handshake: 400 rows in quick, 8 000 in thorough, as a stride coprime-stepped through all of them)
+        Gen { name: "tunnel-rows", count: tier.pick(400, 8_000), exhaustive: false, run: run_tunnel_rows },
     ]
 }
 
@@ -271,7 +271,7 @@ fn tunnel_indices() -> Vec<u64> {
 fn run_tunnel_rows(ctx: &mut Ctx, _rng: &mut Rng, index: u64) {
     let all = tunnel_indices();
     // quick tier: a stride through the tunnel rows
-    let wanted: u64 = if ctx.tier == Tier::Quick { 400 } else { 24_000 };
+    let wanted: u64 = if ctx.tier == Tier::Quick { 400 } else { 8_000 };
     let stride = (all.len() as u64 / wanted).max(1) | 1;
     let pos = ((index * stride) % all.len() as u64) as usize;
     let midx = all[pos];
